@@ -96,6 +96,26 @@ class SymMap:
     def __len__(self):
         raise Escape("len() of a symbolic map")
 
+    def sym_len(self):
+        """cardinality: an unspecified non-negative integer attached to the current content"""
+        key = (self.dom.get_id(), self.val.get_id())
+        memo = cur().__dict__.setdefault("_card", {})
+        if key not in memo:
+            n = cur().fresh("card")
+            cur().axiom(n >= 0)
+            memo[key] = n
+        return lift(memo[key])
+
+    def get(self, k, default=None):
+        k = term(k)
+        if default is None:
+            raise Escape("dict.get without a default on a symbolic map")
+        return lift(z3.If(z3.Select(self.dom, k), z3.Select(self.val, k), term(default)))
+
+    def copy(self):
+        m = SymMap(self.name + "_copy", self.dom, self.val)
+        return m
+
     def items(self):
         return SymItems(self)
 
